@@ -69,14 +69,26 @@ BinOps == {BinE(op, FALSE, R0, LitE(2, 1)) : op \in AllBin} \cup {BinE(op, FALSE
           \cup {BinE(op, TRUE, R0, LitE(3, 1)) : op \in {"eq", "gt", "lte"}}
           \cup {BinE(op, FALSE, R0, VecAgg("sum", 0, NoGrp, R0)) : op \in AllBin \cup {"and", "or", "unless"}}
           \cup {BinE("add", FALSE, BinE("mul", FALSE, R0, LitE(2, 1)), VecE(1, 1)), BinE("gt", TRUE, VecE(3, 2), VecE(1, 1))}
-Exprs == Ranges0 \cup VecAggs \cup BinOps \cup {VecE(0, 1), VecE(5, 2)}
+\* vector-matching modifiers and label_replace: kept by the parser as written (the engine refuses to evaluate them)
+S1 == VecAgg("sum", 0, [mode |-> "by", labels |-> <<APP>>], R0)
+ModE(op, bl, m) == [t |-> "binop", id |-> 0, op |-> op, bool |-> bl, a |-> S1, b |-> R0, k |-> 0, v |-> <<0, 1>>, paren |-> FALSE, mod |-> m]
+Mods == {[op |-> o, labels |-> ls, group |-> "", include |-> <<>>, emptyParens |-> 0] : o \in {"on", "ignoring"}, ls \in {<<>>, <<APP>>, <<APP, K>>}}
+        \cup {[op |-> o, labels |-> <<APP>>, group |-> g, include |-> inc, emptyParens |-> ep] : o \in {"on", "ignoring"}, g \in {"left", "right"}, inc \in {<<>>, <<K>>, <<K, A>>}, ep \in {0, 1}}
+ModOps == {ModE(op, FALSE, m) : op \in {"div", "and", "gt"}, m \in Mods} \cup {ModE("gt", TRUE, m) : m \in Mods}
+LRepl(e, dst, repl, src, re) == [t |-> "lrepl", id |-> 0, op |-> "", e |-> e, dst |-> dst, repl |-> repl, src |-> src, regex |-> re, k |-> 0, v |-> <<0, 1>>, bool |-> FALSE, paren |-> FALSE]
+LRepls == {LRepl(R0, Bb, <<36, 49>>, APP, <<40, 46, 42, 41>>), LRepl(S1, APP, <<>>, K, <<97, 124, 98>>), LRepl(R0, K, <<120>>, A, <<>>),
+           LRepl(LRepl(R0, A, <<36, 49>>, Bb, <<40, 46, 41>>), Bb, <<121>>, A, <<46, 43>>),
+           BinE("add", FALSE, LRepl(R0, Bb, <<36, 49>>, APP, <<40, 46, 42, 41>>), LitE(1, 1)),
+           VecAgg("sum", 0, [mode |-> "by", labels |-> <<Bb>>], LRepl(R0, Bb, <<36, 49>>, APP, <<40, 46, 42, 41>>))}
+Exprs == Ranges0 \cup VecAggs \cup BinOps \cup {VecE(0, 1), VecE(5, 2)} \cup ModOps \cup LRepls
 
 Layouts == { [ws |-> 0, raw |-> FALSE, paren |-> FALSE, grpPre |-> FALSE, durComp |-> FALSE], [ws |-> 1, raw |-> TRUE, paren |-> FALSE, grpPre |-> TRUE, durComp |-> TRUE],
              [ws |-> 2, raw |-> FALSE, paren |-> TRUE, grpPre |-> FALSE, durComp |-> TRUE], [ws |-> 3, raw |-> TRUE, paren |-> TRUE, grpPre |-> TRUE, durComp |-> FALSE],
              [ws |-> 4, raw |-> FALSE, paren |-> FALSE, grpPre |-> TRUE, durComp |-> FALSE], [ws |-> 4, raw |-> TRUE, paren |-> TRUE, grpPre |-> FALSE, durComp |-> TRUE] }
 LogMuts == {"drop_close_brace", "double_pipe", "trailing_op", "trailing_junk", "bad_regex", "bad_label_regex", "unwrap_in_log", "dup_label_format", "dup_label_format_mixed", "dup_label_format_mixed2", "dup_label_format_tmpl", "empty_selector_matcher"}
 MetricMuts == {"drop_close_brace", "drop_close_paren", "drop_close_bracket", "trailing_junk", "empty_selector_matcher", "quantile_no_param", "param_not_allowed", "topk_no_param",
-               "topk_zero", "sort_grouping", "range_grouping", "unwrap_missing", "unwrap_forbidden", "missing_range"}
+               "topk_zero", "sort_grouping", "range_grouping", "unwrap_missing", "unwrap_forbidden", "missing_range",
+               "lrepl_bad_regex", "lrepl_three_args", "lrepl_bare_arg", "on_without_labels", "group_without_on"}
 
 VARIABLES kind, sel, stages, expr, pc
 vars == <<kind, sel, stages, expr, pc>>
